@@ -212,8 +212,18 @@ func (s *Store) finishSnapshotAsync(snap *jobSnapshot) (uri string, err error) {
 	// Accessing state to update completedSnapshots
 	s.stateMu.Lock()
 
+	// A later checkpoint may have been published while this one was still being
+	// written. Then this snapshot is the obsolete one: the newer checkpoint stays
+	// the completed one and nothing is announced.
+	superseded := false
+	for _, done := range s.state.completedSnapshots {
+		if done.id > snap.id {
+			superseded = true
+		}
+	}
+
 	// When a new checkpoint is finished, all previous checkpoints are obsolete.
-	if len(s.state.completedSnapshots) > 0 {
+	if !superseded && len(s.state.completedSnapshots) > 0 {
 		obsoleteIDs := make([]uint64, 0, len(s.state.completedSnapshots))
 		for _, oldSnap := range s.state.completedSnapshots {
 			obsoleteIDs = append(obsoleteIDs, oldSnap.id)
@@ -239,7 +249,9 @@ func (s *Store) finishSnapshotAsync(snap *jobSnapshot) (uri string, err error) {
 	}
 
 	// Reset the completed snapshots to remove obsolete checkpoints
-	s.state.completedSnapshots = []*jobSnapshot{snap}
+	if !superseded {
+		s.state.completedSnapshots = []*jobSnapshot{snap}
+	}
 	s.stateMu.Unlock()
 
 	s.log.Info("store wrote checkpoint", "uri", uri)
@@ -250,6 +262,13 @@ func (s *Store) finishSnapshotAsync(snap *jobSnapshot) (uri string, err error) {
 			return "", err
 		}
 		s.log.Info("store wrote savepoint", "uri", spURI)
+	}
+
+	// The file of a superseded checkpoint is obsolete as soon as it is written.
+	if superseded {
+		if err := s.fileStore.Remove(filepath.Join(s.checkpointsPath, "job-"+pathSegment(snap.id)+".snapshot")); err != nil {
+			s.log.Error("failed to remove superseded checkpoint file", "id", snap.id, "err", err)
+		}
 	}
 	return uri, nil
 }
